@@ -142,6 +142,7 @@ type fakeWorld struct {
 	tr      *trace
 	list    ListSpec
 	rootDER [][]byte
+	rootsOf func(log int) int // optional: the root mask log answers with right now (overrides LogSpec.Roots)
 	leafTo map[[32]byte]int // leaf hash -> submission index
 	beh    [][]Beh          // [submission][log]
 
@@ -180,6 +181,9 @@ func (f *fakeLogClient) AddPreChain(ctx context.Context, chain []ct.ASN1Cert) (*
 
 func (f *fakeLogClient) GetAcceptedRoots(ctx context.Context) ([]ct.ASN1Cert, error) {
 	l := f.w.list.Logs[f.log]
+	if f.w.rootsOf != nil {
+		l.Roots = f.w.rootsOf(f.log) // decided when the request arrives
+	}
 	start := f.w.tr.now()
 	ok := vt.Sleep(ctx, ms(l.RootsMs)) && l.Roots >= 0
 	f.w.mu.Lock()
@@ -333,7 +337,8 @@ func run2(t *testing.T, c Case2, aux Aux, emit func(Out2)) {
 	}
 	chains := aux.Chains
 	vt.Run(t, watchdog, func(ctx context.Context) {
-		tr.t0 = time.Now()
+		tr.start(ctx)
+		defer tr.finish()
 		all, release := context.WithCancel(ctx)
 		defer release()
 		ll := buildList(c.List, c.Life.NotAfter(), nil)
